@@ -22,6 +22,16 @@ CHECKS = {
    text="For 19 output scenarios (whole-file write, patch-by-rewrite to a new path and to a hard-linked same path, MSI copy-then-edit, PGP merges, every package type) x destination {absent, present}: pass 0 records the main thread's file-system calls with strace; for every such call k one run is killed on entry to call k and one run has call k fail (ENOSPC/EIO/EACCES); each run's strace log confirms which boundary was hit (retried until the addressed boundary is confirmed). After every run: destination is the complete old or complete new content (never missing/torn), input untouched, no *.tmp* after a handled error, exit status consistent.",
    note="Trusted: strace 6.1 injection semantics (kill on syscall entry; verified per run from the log), relic verify + an independent PE checksum as the 'complete new content' test. Calls issued on helper threads (PGP merge writer goroutine) are addressed only as (call, occurrence) on whichever thread reaches it first and are reported separately; exhaustive is false when any planned boundary stayed unconfirmed. Process kill only - power loss is outside the statement.",
    ref="4/C13"),
+ "C16": dict(level="model_checking", engine="E4 bounded-exhaustive DER SignedData family + operations on the real pkcs7/pkcs9 code",
+   technique="bounded-exhaustive enumeration of a DER SignedData shape family (11 dimensions; quick: all singles, all pairs and one 6-dimension full product; thorough: the complete 648000-member product) x parse/emit/detach/stamp operations on the real code, judged by an independent DER range walker and Go-crypto/OpenSSL re-verification",
+   text="Every member of the stated family (version, digestAlgorithms order/params, eContent kinds, certificate sets, CRLs, 1-2 signer infos, sid form, signedAttrs order/duplicates/time formats, RSA/PSS/ECDSA, unsigned attrs incl. RFC 3161 / Authenticode / legacy counter-signature / nested tokens, trailing bytes), all correctly signed, plus relic's own outputs for 8 signers, genuine `openssl ts` tokens and a Microsoft catalog, goes through Unmarshal->Marshal (twice), Detach, AddStampToSignedData/Authenticode and the catalog re-signer; signed regions must be byte-identical, embedded third-party signatures must still verify (Go crypto + openssl cms/ts), relic-built signer infos must carry exactly one consistent contentType/messageDigest over the emitted SET bytes.",
+   note="Trusted: gen/dergen (from-scratch DER writer/walker/verifier, cross-checked against openssl in its own go test), OpenSSL 3.0. Structures Go's encoding/asn1 refuses (BER indefinite length, non-minimal lengths, SKI sid) count as refused, not violations. Re-ordering of unsigned SET regions is tallied and only a violation if a signature breaks.",
+   ref="4/C16"),
+ "C19": dict(level="model_checking", engine="E4 bounded-exhaustive XML family + E5 single-edit enumeration, JDK 17 as reference",
+   technique="bounded-exhaustive enumeration of XML documents of the classes relic signs and of every single re-serialisation / alteration edit of really signed documents, judged by the JDK canonicaliser and XML-DSig validator",
+   text="(A) SerializeCanonical vs the JDK canonicaliser for the declared algorithm at every apex of every document of the signed classes (2232 ClickOnce manifest variants signed through the real pipeline, 161 VSIX packages, 1132 AppX manifests) - the general family (depth<=3 trees x namespace/attribute/text/prolog alphabets, ~280k (doc,apex) pairs quick, ~5M thorough) is tallied as observation only; (B) every single edit at every site of signed manifests and VSIX signature parts, classified as meaning-preserving or -changing by the JDK canonical form, must be followed by relic verify and the JDK validator; (C) ECDSA SignatureValue width for every (|r|,|s|) leading-zero class on P-256/384/521 via a scripted signer; (D) publicKeyToken / publisher / issuerKeyHash against independent computations.",
+   note="Trusted: JDK 17 canonicaliser and javax.xml.crypto.dsig, gen/xmlgen lexical model. Deviations on generic documents outside the classes relic signs are reported as outcome classes, not violations. 16 deviation classes of relic's etree-based canonicaliser are listed in KNOWN_FINDINGS.txt by root cause; two were repaired (attribute order by namespace URI, fixed-width ECDSA).",
+   ref="4/C19"),
 }
 NOT_YET = {}
 ALL = ["C%02d" % i for i in range(1, 21)]
